@@ -252,6 +252,19 @@ func (w *World) Inject(from, to uint16, typ uint8, topic, data []byte, tag strin
 	return m
 }
 
+// MoveToHead moves a queued message to the head of its link (an adversary
+// decides the order in which its own NIC transmits).
+func (w *World) MoveToHead(m *Msg) {
+	l := w.link(m.From, m.To)
+	for i, q := range l.Q {
+		if q == m {
+			copy(l.Q[1:i+1], l.Q[:i])
+			l.Q[0] = m
+			return
+		}
+	}
+}
+
 func (w *World) link(from, to uint16) *Link {
 	k := [2]uint16{from, to}
 	l := w.Links[k]
